@@ -1,9 +1,9 @@
 /-
   C41 — Chunked metastore responses decode exactly.
   Model: IQE.Engine.Dechunk (mirror of `metastore::gravitino::dechunk`; `usize` = 2^64, panics explicit).
-  The theorems are about the model with all deviation switches off (`Dev.fixed`, the decoder of
-  proposed_fixes/C41-dechunk-framing.patch); for each switch of the decoder that was in /repo before that
-  fix (`Dev.legacy`) a kernel-checked counterexample is given below.
+  The theorems are about the model with all deviation switches off (`Dev.fixed`, the decoder in /repo since
+  fix commit 9d62852, which the correspondence runs are made against); for each switch of the decoder that
+  was in /repo before that fix (`Dev.legacy`) a kernel-checked counterexample is given below.
   Helper lemmas: IQE/Lemmas/Dechunk.lean.
 -/
 import IQE.Lemmas.Dechunk
